@@ -255,6 +255,39 @@ def scan_attr_primitives(repo):
     return rows
 
 
+def scan_flag_calls(repo):
+    """Every call of _eval_forward_ref / _type_from_runtime / type_from_runtime / _type_from_ast / _type_from_value in
+    annotations.py and arg_spec.py: (file, enclosing function, callee, keyword arguments passed, whether the enclosing
+    function itself has an allow_unpack parameter)."""
+    rows = []
+    callees = ("_eval_forward_ref", "_type_from_runtime", "type_from_runtime", "_type_from_ast", "_type_from_value")
+    for rel in ("pyanalyze/annotations.py", "pyanalyze/arg_spec.py"):
+        tree = ast.parse(open(os.path.join(repo, rel)).read())
+
+        def visit(node, qual, has_flag):
+            for ch in ast.iter_child_nodes(node):
+                q, hf = qual, has_flag
+                if isinstance(ch, (ast.FunctionDef, ast.AsyncFunctionDef)):
+                    q = (qual + "." if qual else "") + ch.name
+                    hf = any(a.arg == "allow_unpack" for a in ch.args.args + ch.args.kwonlyargs)
+                elif isinstance(ch, ast.ClassDef):
+                    q = (qual + "." if qual else "") + ch.name
+                if isinstance(ch, ast.Call):
+                    f = ch.func
+                    name = f.id if isinstance(f, ast.Name) else (f.attr if isinstance(f, ast.Attribute) else "")
+                    if name in callees:
+                        kws = ",".join(sorted("%s=%s" % (k.arg, ast.unparse(k.value)) for k in ch.keywords
+                                              if k.arg in ("allow_unpack", "is_typeddict")))
+                        rows.append((rel, qual or "<module>", name, kws, "flag" if has_flag else "-"))
+                visit(ch, q, hf)
+
+        visit(tree, "", False)
+    out = {}
+    for r in rows:
+        out[r] = out.get(r, 0) + 1
+    return [r + (str(n),) for r, n in sorted(out.items())]
+
+
 def translate(ctx):
     """Regenerate Generated/ArgSpecCaches.lean from the tree under check (obligations argspec_caches_registered,
     return_branches_registered)."""
@@ -262,6 +295,7 @@ def translate(ctx):
     rows = scan_caches(repo)
     branches = scan_return_branches(repo)
     prims = scan_attr_primitives(repo)
+    flags = scan_flag_calls(repo)
     q = lambda x: '"' + x.replace("\\", "\\\\").replace('"', '\\"') + '"'
     body = ",\n  ".join("(%s, %s, %s, %s)" % tuple(q(x) for x in r) for r in rows)
     text = ("/-! GENERATED by harness/props/c13.py (translate) from the live tree on every run. Do not edit.\n"
@@ -271,9 +305,13 @@ def translate(ctx):
             "/-- where `from_signature` / `compute_value_of_function` assign the return type: (function, branch conditions, value) -/\n"
             "def returnBranches : List (String × String × String) := [\n  %s]\n\n"
             "/-- the attribute-resolution primitives used on annotation routes: (file, enclosing function, primitive, uses) -/\n"
-            "def attrPrimitives : List (String × String × String × String) := [\n  %s]\n\nend Pya.C13\n"
+            "def attrPrimitives : List (String × String × String × String) := [\n  %s]\n\n"
+            "/-- every call of the annotation evaluators: (file, enclosing function, callee, allow_unpack / is_typeddict keywords passed,\n"
+            "whether the enclosing function has an allow_unpack parameter, number of such calls) -/\n"
+            "def flagCalls : List (String × String × String × String × String × String) := [\n  %s]\n\nend Pya.C13\n"
             % (body, ",\n  ".join("(%s, %s, %s)" % tuple(q(x) for x in r) for r in branches),
-               ",\n  ".join("(%s, %s, %s, %s)" % tuple(q(x) for x in r) for r in prims)))
+               ",\n  ".join("(%s, %s, %s, %s)" % tuple(q(x) for x in r) for r in prims),
+               ",\n  ".join("(%s, %s, %s, %s, %s, %s)" % tuple(q(x) for x in r) for r in flags)))
     lean.write_if_changed(os.path.join(lean.LEAN, "PyaModel", "Generated", "ArgSpecCaches.lean"), text)
     ctx.extra["argspec_caches"] = rows
     ctx.extra["return_branches"] = branches
@@ -2087,6 +2125,140 @@ def eval_decorated(ctx):
                           cls=cls, conforms=True, stream="decorated")
 
 
+# ------------------------------------------------------------------ Unpack[...] on *args / **kwargs: implementation only
+UNPACK_PRE = (
+    "from typing import Tuple, Any\nfrom typing_extensions import TypedDict, Unpack, NotRequired, Required, TypeVarTuple\n"
+    "class TD(TypedDict):\n    a: int\n    b: NotRequired[str]\n"
+    "class TD2(TypedDict, total=False):\n    a: Required[int]\n    c: bytes\n"
+    "class TD0(TypedDict):\n    pass\n"
+    "Ts = TypeVarTuple('Ts')\n"
+)
+UNPACK_VP = ["Unpack[Tuple[int, str]]", "Unpack[tuple[int, str]]", "Unpack[Tuple[int]]", "Unpack[Tuple[int, ...]]",
+             "Unpack[Tuple[int, Unpack[Tuple[str, ...]]]]", "Unpack[Ts]", "Tuple[int, str]", "int"]
+UNPACK_VK = ["Unpack[TD]", "Unpack[TD2]", "Unpack[TD0]", "TD", "int"]
+UNPACK_POS = ["", "1", "1, 'a'", "'a', 1", "1, 'a', 2", "1, 2", "'a'"]
+UNPACK_KW = ["", "a=1", "a=1, b='x'", "a='x'", "a=1, b=2", "b='x'", "a=1, c=b''", "a=1, c=2", "a=1, z=3", "z=1"]
+
+
+def unpack_defs(rng=None, n=0):
+    """(name, def text, calls): a var-positional / var-keyword parameter annotated with Unpack[...] in each spelling (plain,
+    quoted, partly quoted), alone, next to ordinary parameters, and both together."""
+    out = []
+
+    def spell(a):
+        return [a, repr(a)] + (["Unpack[%r]" % a[7:-1]] if a.startswith("Unpack[") else [])
+
+    k = 0
+    for a in UNPACK_VP:
+        for sp in spell(a):
+            out.append(("u%d" % k, "def u%d(*args: %s) -> None:\n    pass" % (k, sp), UNPACK_POS)); k += 1
+        out.append(("u%d" % k, "def u%d(x: str, *args: %s, k: int = 0) -> None:\n    pass" % (k, repr(a)),
+                    ["'s', " + c if c else "'s'" for c in UNPACK_POS] + ["'s', 1, 'a', k=1", "1"])); k += 1
+    for a in UNPACK_VK:
+        for sp in spell(a):
+            out.append(("u%d" % k, "def u%d(**kw: %s) -> None:\n    pass" % (k, sp), UNPACK_KW)); k += 1
+        out.append(("u%d" % k, "def u%d(x: str, *, k: int = 0, **kw: %s) -> None:\n    pass" % (k, repr(a)),
+                    ["'s', " + c if c else "'s'" for c in UNPACK_KW] + ["'s', k=1, a=1", "a=1"])); k += 1
+    for a, b in [(UNPACK_VP[0], UNPACK_VK[0]), (UNPACK_VP[3], UNPACK_VK[1]), (UNPACK_VP[0], UNPACK_VK[3])]:
+        for q in (str, repr):
+            out.append(("u%d" % k, "def u%d(*args: %s, **kw: %s) -> None:\n    pass" % (k, q(a), q(b)),
+                        ["1, 'a', a=1", "1, 'a'", "1, a=1", "1, 'a', a='x'", "1, 'a', a=1, z=2", "a=1"])); k += 1
+    for _ in range(n):      # random combinations
+        a, b = rng.choice(UNPACK_VP + [None]), rng.choice(UNPACK_VK + [None])
+        ps = (["x: int"] if rng.random() < 0.4 else []) + \
+            (["*args: %s" % rng.choice(spell(a))] if a else (["*"] if rng.random() < 0.3 else [])) + \
+            (["k: int = 0"] if rng.random() < 0.5 else [])
+        if ps and ps[-1] == "*":
+            ps.pop()
+        if b:
+            ps.append("**kw: %s" % rng.choice(spell(b)))
+        pre = "1, " if ps and ps[0] == "x: int" else ""
+        calls = [(pre + ", ".join(x for x in (rng.choice(UNPACK_POS), rng.choice(UNPACK_KW)) if x)).rstrip(", ") for _ in range(5)]
+        out.append(("u%d" % k, "def u%d(%s) -> None:\n    pass" % (k, ", ".join(ps)), sorted(set(calls)))); k += 1
+    return out
+
+
+def eval_unpack(ctx):
+    """`*args: Unpack[tuple[...]]` / `**kwargs: Unpack[TD]` (functions.py compute_parameters and arg_spec.py from_signature
+    both evaluate the annotation with allow_unpack=True for these two kinds; model: unpack_flag_routes_agree). Each def is
+    written unquoted, quoted and partly quoted, in an ordinary module and under `from __future__ import annotations`; the
+    signature of the nested def (def node) is compared with that of the module-level function object, and the same calls are
+    judged next to the nested def, in the defining module and from an importer."""
+    from pyanalyze.value import CallableValue
+    if ctx.scratch not in sys.path:
+        sys.path.insert(0, ctx.scratch)
+    defs = unpack_defs(ctx.rng, ctx.n(20, 400))
+    ind = lambda t: "\n".join("    " + l for l in t.split("\n"))
+    for future in (False, True):
+        fut = "from __future__ import annotations\n" if future else ""
+        _MODCOUNT[0] += 1
+        name = "c13unp_%d_%d" % (os.getpid(), _MODCOUNT[0])
+        good = []
+        for d in defs:
+            try:
+                exec(fut + UNPACK_PRE + d[1] + "\n", {"__name__": "c13probe"})
+                good.append(d)
+            except Exception:
+                pass
+        with open(os.path.join(ctx.scratch, name + ".py"), "w") as f:
+            f.write(fut + UNPACK_PRE + "\n".join(d[1] for d in good) + "\n")
+        importlib.invalidate_caches()
+        H = importlib.import_module(name)
+        checker = pya.make_checker()
+        callsrc = lambda pre: "\n".join("    %s%s(%s)" % (pre, n, c) for n, _, cs in good for c in cs)
+        nested = fut + UNPACK_PRE + "def outer():\n" + "\n".join(ind(d[1]) + "\n    " + d[0] for d in good) + "\n" + callsrc("") + "\n"
+        own = fut + UNPACK_PRE + "\n".join(d[1] for d in good) + "\ndef run():\n" + callsrc("") + "\n"
+        imp = "import %s as H\ndef run():\n" % name + callsrc("H.") + "\n"
+
+        def collect(src):
+            fails, tree, _ = pya.check_source(src, annotate=True)
+            codes = {}
+            for f in fails:
+                codes.setdefault(f["lineno"], set()).add(f["code"])
+            out, sigs, noise = {}, {}, {}
+            for fn in tree.body:
+                if isinstance(fn, ast.FunctionDef) and fn.name in ("run", "outer"):
+                    for n in fn.body:
+                        if isinstance(n, ast.Expr) and isinstance(n.value, ast.Call):
+                            out[ast.unparse(n.value).replace("H.", "")] = tuple(sorted(
+                                c for c in codes.get(n.lineno, ()) if c in ("incompatible_call", "incompatible_argument")))
+                        elif isinstance(n, ast.Expr) and isinstance(n.value, ast.Name):
+                            v = getattr(n.value, "inferred_value", None)
+                            # a def whose Signature cannot be built (InvalidSignature, e.g. the positional-only `@0` of an
+                            # unpacked tuple after a positional-or-keyword parameter) is Any[error] here, an exception there
+                            sigs[n.value.id] = _strip_any(_strip_tv(v.signature)) if isinstance(v, CallableValue) else "INVALID"
+                        elif isinstance(n, ast.FunctionDef):
+                            noise[n.name] = sorted(c for l in range(n.lineno, n.end_lineno + 1) for c in codes.get(l, ()))
+                elif isinstance(fn, ast.FunctionDef):
+                    noise[fn.name] = sorted(c for l in range(fn.lineno, fn.end_lineno + 1) for c in codes.get(l, ()))
+            return out, sigs, noise
+
+        (a, asig, anoise), (b, _, bnoise), (c, _, _) = collect(nested), collect(own), collect(imp)
+        src = {d[0]: d[1] for d in good}
+        for n, text, _ in good:
+            ctx.count(1, unpack=1)
+            ctx.corr("unpack")
+            try:
+                rsig = _strip_any(_strip_tv(checker.arg_spec_cache.get_argspec(getattr(H, n))))
+            except Exception as e:
+                rsig = "INVALID" if type(e).__name__ == "InvalidSignature" else "EXC:%s" % type(e).__name__
+            if asig.get(n) != rsig:
+                ctx.candidate({"def": text, "future": future},
+                              "the signature of the def node and of the function object differ for\n%s\n  def node: %s\n  object:   %s"
+                              % (text, asig.get(n), rsig), cls=None, conforms=True, stream="unpack-sig")
+            if anoise.get(n) != bnoise.get(n):
+                ctx.candidate({"def": text, "future": future},
+                              "the def statement is reported differently nested (%s) and at module level (%s):\n%s"
+                              % (anoise.get(n), bnoise.get(n), text), cls=None, conforms=True, stream="unpack-def")
+        for k in b:
+            ctx.count(1, unpack_calls=1)
+            views = {"nested def": a.get(k), "own module": b[k], "importer": c.get(k)}
+            if len({repr(v) for v in views.values()}) > 1:
+                ctx.candidate({"call": k, "def": src.get(k.split("(")[0]), "future": future},
+                              "the call %s is judged differently: %s" % (k, "; ".join("%s: %s" % kv for kv in views.items())),
+                              cls=None, conforms=True, stream="unpack-call")
+
+
 def _strip_any(x):
     """Any sources are not compared (an AnyValue keeps only its class name)."""
     if isinstance(x, tuple):
@@ -2248,6 +2420,7 @@ def run(ctx, with_model=True):
     eval_extra(ctx)
     eval_methods(ctx)
     eval_decorated(ctx)
+    eval_unpack(ctx)
 
 
 def run_impl_only(ctx):
